@@ -41,17 +41,60 @@ def search_call(ctx: Ctx):
     dn = f"extract_node_ids_int({d}.link_id)[1][0]"
     want = f"nx.astar_path(self.graph, {on}, {dn}, heuristic=_astar_cost_heuristic, weight=TIME_WEIGHT)"
     n = 0
-    for p in flow.paths(fn.node):
-        if p.kind != "return" or flow.dump(p.value) == "empty_route()":
-            continue
-        n += 1
-        v = p.value
+    all_paths = flow.paths(fn.node)
+
+    def from_search(v: ast.AST) -> bool:
         inner_src = [c for c in flow.calls_in(v, "route_from_nx_path")]
         ok = bool(inner_src) and all(c.args and flow.dump(c.args[0]) == want for c in inner_src) and len(flow.calls_in(v, "resolve_route_src_dst_positions")) == 1
         # nothing else than the links of that node path sits between the origin and destination links
         res = flow.calls_in(v, "resolve_route_src_dst_positions")
         if ok and res:
             ok = flow.dump(res[0].args[0]) == f"route_from_nx_path({want}, self.link_helper.links)[1]"
+        return ok
+
+    def memo_of_search(v: ast.AST) -> bool:
+        """v reads a table of this object (`self.T.get(K)` / `self.T[K]`) that is filled only in route(), only with routes that
+        come from the search, under the very key it is read with, and that key names both link ids (which determine the
+        inner path on a static graph)."""
+        if isinstance(v, ast.Call) and isinstance(v.func, ast.Attribute) and v.func.attr == "get" and len(v.args) == 1:
+            tab, key = v.func.value, v.args[0]
+        elif isinstance(v, ast.Subscript):
+            tab, key = v.value, v.slice
+        else:
+            return False
+        if not (isinstance(tab, ast.Attribute) and flow.dump(tab.value) == "self"):
+            return False
+        kd = flow.dump(key)
+        if f"{o}.link_id" not in kd or f"{d}.link_id" not in kd:
+            return False
+        cls = fn.cls
+        writes = []
+        for f in ctx.repo.all_funcs():
+            if f.cls is not cls and (f.cls is None or f.cls.name != cls.name or f.relpath != fn.relpath):
+                continue
+            for node in ast.walk(f.node):
+                if isinstance(node, ast.Subscript) and isinstance(node.ctx, (ast.Store, ast.Del)) and flow.dump(node.value) == flow.dump(tab):
+                    writes.append((f, node))
+                if isinstance(node, ast.Call) and isinstance(node.func, ast.Attribute) and flow.dump(node.func.value) == flow.dump(tab) \
+                        and node.func.attr in ("update", "setdefault", "pop", "popitem", "clear", "__setitem__"):
+                    writes.append((f, node))
+        if not writes or any(f.qualname != fn.qualname for f, _ in writes):
+            return False
+        seen_store = False
+        for p2 in all_paths:
+            for st in p2.stores:
+                if isinstance(st.raw, ast.Subscript) and flow.dump(st.raw.value) == flow.dump(tab):
+                    seen_store = True
+                    if flow.dump(st.target.slice if isinstance(st.target, ast.Subscript) else st.raw.slice) != kd or st.value is None or not from_search(st.value):
+                        return False
+        return seen_store
+
+    for p in all_paths:
+        if p.kind != "return" or flow.dump(p.value) == "empty_route()":
+            continue
+        n += 1
+        v = p.value
+        ok = from_search(v) or memo_of_search(v)
         ctx.check(ok, "D1", "DU.search", "every assembled route takes its inner path from A* over the travel-time weight, between the origin link's end node and the destination link's start node", fn, p.end,
                   why_bad=f"path [{p.cond_text()[:160]}] returns {flow.dump(v)[:260]}: the inner part does not come from the fastest-path search", construct="OSMRoadNetwork.route:bypasses-search")
     if n < 1:
@@ -177,7 +220,15 @@ def _units(ctx: Ctx, U: str, val):
 
 def selftest():
     from ..selftest import V
-    return [
+    def memo(key):
+        return V("x", OSM, "        if origin == destination:\n            return empty_route()\n\n        def _astar_cost_heuristic",
+                 "        if origin == destination:\n            return empty_route()\n\n        known_route = self._routes.get(%s)\n        if known_route is not None:\n            return known_route\n\n        def _astar_cost_heuristic" % key,
+                 more=((OSM, "            self.link_helper = link_helper\n", "            self.link_helper = link_helper\n            self._routes = {}\n"),
+                       (OSM, "                else:\n                    return resolved_route", "                else:\n                    self._routes[%s] = resolved_route\n                    return resolved_route" % key)))
+    import dataclasses
+    memo_both = dataclasses.replace(memo("(origin.link_id, destination.link_id)"), name="twin-memo-keyed-by-both-links", kind="twin")
+    memo_one = dataclasses.replace(memo("origin.link_id"), name="memo-keyed-by-origin-only", kind="break", rule="DU.search")
+    return [memo_both, memo_one,
         V("haversine-lon-lat", "nrel/hive/util/h3_ops.py", "        lat1, lon1 = h3.h3_to_geo(a)\n", "        lon1, lat1 = h3.h3_to_geo(a)\n", rule="BD.distance"),
         V("min-speed", OSM, "            time: Hours = dist / self.max_speed_kmph", "            time: Hours = dist / self.min_speed_kmph", rule="BD.heuristic"),
         V("max-of-posted", OSM, "            self.max_speed_kmph: Kmph = max(link.speed_kmph for link in link_helper.links.values())",
